@@ -60,6 +60,10 @@ ALPHA = {
 # derived screens: names that differ only in surrounding blanks, a named control at a positive dose
 ALPHA["L6"] = [(n, d) for n in ("x", "x ", "ctl") for d in (0.0, 1.0)]
 ALPHA["L4"] = [("x", 1.0), ("x ", 1.0), ("ctl", 1.0), ("x", 0.0)]
+# supplied mappings: a SECOND name that has a dose the first name lacks (a mapping from which (b, 2) was dropped knows the name b
+# and the dose 1, but not the dose 2)
+ALPHA["M4"] = [("a", 1.0), ("b", 1.0), ("b", 2.0), ("", 0.0)]
+ALPHA["M6"] = [("a", 1.0), ("a", 2.0), ("b", 1.0), ("b", 2.0), ("b", 3.0), ("", 0.0)]
 DERIVED_NAMES = ["s", "s ", " s"]
 DERIVED_OPS = ["reload", "mask", "unmask", "random-holdout", "balanced-holdout", "reveal", "to-screen", "combine"]
 CONTROLS = ["", "ctl"]
@@ -75,7 +79,7 @@ BOUNDS = {
         ],
         "treatment_encoder_direct": "all arrays of length<=3 over D12",
         "encoder_1d_direct": "all arrays of length<=4 over 4 strings; all sub-lists of arrays of length<=3 with the superset mapping",
-        "supplied_mapping": "S = arity1 rows<=3 over S4, arity2 2 rows over S3; every non-empty sub-list; both rejection families",
+        "supplied_mapping": "S = arity1 rows<=3 over S4, arity2 2 rows over S3, arity1 3 rows over M4 (two names, the second with a dose the first lacks); every non-empty sub-list; both rejection families",
         "control_names": CONTROLS,
         "sample_plate_names": NAMES4,
         "memory": "every no-mapping screen also column-major (arity >= 2); read-only and big-endian arrays on the deterministic third of the cases whose digest is divisible by 3",
@@ -94,7 +98,7 @@ BOUNDS = {
         ],
         "treatment_encoder_direct": "all arrays of length<=3 over D12 and over T24",
         "encoder_1d_direct": "as quick",
-        "supplied_mapping": "quick + S = arity1 rows<=3 over S5, arity2 2 rows over S4, arity3 2 rows over S3",
+        "supplied_mapping": "quick + S = arity1 rows<=3 over S5, arity2 2 rows over S4, arity3 2 rows over S3, arity1 rows 2-3 over M6",
         "control_names": CONTROLS,
         "sample_plate_names": NAMES4,
     },
@@ -205,8 +209,11 @@ def plan(tier, seed):
     for n in (1, 2, 3):
         mapping("S4", 1, n, 16)
     mapping("S3", 2, 2, 27)
+    mapping("M4", 1, 3, 16)
 
     if tier == "thorough":
+        for n in (2, 3):
+            mapping("M6", 1, n, 27)
         total = sum(1 for _ in itertools.combinations_with_replacement(range(81), 3))
         for c in CONTROLS:
             for order in ("given", "reversed"):
